@@ -102,9 +102,12 @@ mod harness {
     /// stream bookkeeping (`start` index across bytes): strings of up to 3 ASCII bytes, all byte values
     #[kani::proof]
     #[kani::unwind(26)]
-    fn h_escape_stream3() {
+    fn h_escape_stream3() { let n: usize = kani::any(); kani::assume(n <= 3); check_stream(n); kani::cover!(n == 0); }
+    #[kani::proof]
+    #[kani::unwind(20)]
+    fn h_escape_stream2() { check_stream(2); }
+    fn check_stream(n: usize) {
         let bytes: [u8; 3] = kani::any();
-        let n: usize = kani::any(); kani::assume(n <= 3);
         kani::assume(bytes[0] < 0x80 && bytes[1] < 0x80 && bytes[2] < 0x80);
         let s = unsafe { std::str::from_utf8_unchecked(&bytes[..n]) };
         let mut buf = String::new();
@@ -113,7 +116,6 @@ mod harness {
         let k = json_read(buf.as_bytes(), &mut dec);
         assert!(k == Some(n), "obligation: output is one well-formed JSON string of the same length");
         let mut i = 0; while i < n { assert!(dec[i] == bytes[i], "obligation: reads back code point for code point"); i += 1; }
-        kani::cover!(n == 3 && bytes[0] == b'"' && bytes[1] == b'a' && bytes[2] < 0x20);
-        kani::cover!(n == 0);
+        kani::cover!(bytes[0] == b'"' && bytes[1] == b'a');
     }
 }
